@@ -172,7 +172,7 @@ theorem decompressBody_spec {raw : List Nat} (hb : Bytes raw) {s : Scratch} (hwf
     have hlen : (raw.take upper).length = upper := by rw [List.length_take]; omega
     have hpre := hpreOf _ hlen
     have hbsrc : Bytes (raw.take upper) := bytes_take hb _
-    have hnf := decodeLiterals_no_fault specFseOK _ s.huf _ hbsrc hwf.huf hpre
+    have hnf := decodeLiterals_no_fault _ s.huf _ hbsrc hwf.huf hpre
     simp only []
     cases hd : Huf.decodeLiterals { lsType := litTypeOf sec.ty, regeneratedSize := sec.regen, compressedSize := sec.comp, numStreams := sec.streams } s.huf (raw.take upper) [] with
     | mk huf r =>
@@ -184,7 +184,7 @@ theorem decompressBody_spec {raw : List Nat} (hb : Bytes raw) {s : Scratch} (hwf
         | err e' => exact post_err (fun h => absurd rfl h) (fun _ => hwf.fse)
       | ok q =>
         obtain ⟨lits, used⟩ := q
-        obtain ⟨hhuf, hll, hused⟩ := decodeLiterals_ok specFseOK _ s.huf _ hbsrc hwf.huf hpre hd
+        obtain ⟨hhuf, hll, hused⟩ := decodeLiterals_ok _ s.huf _ hbsrc hwf.huf hpre hd
         simp only [] at hll
         simp only []
         rw [if_neg (by omega), if_neg (by omega)]
